@@ -210,3 +210,12 @@ func CompareAndSwapPointer(a *unsafe.Pointer, o, n unsafe.Pointer) bool {
 	y()
 	return r
 }
+
+// ---- harness-only accessors (no scheduling point) ---------------------------------
+
+func (x *Int32) Peek() int32   { return x.v.Load() }
+func (x *Int64) Peek() int64   { return x.v.Load() }
+func (x *Uint32) Peek() uint32 { return x.v.Load() }
+func (x *Uint64) Peek() uint64 { return x.v.Load() }
+func (x *Bool) Peek() bool     { return x.v.Load() }
+func (x *Pointer[T]) Peek() *T { return x.v.Load() }
